@@ -68,6 +68,50 @@ theorem shortPiv_length {seq : Nat} (h : seq < maxSeqno) :
     rw [byteLen_pos hne]; rw [byteLen_pos hne] at this
     omega
 
+/-- what the sender puts on the wire is in the shortest form -/
+theorem shortPiv_minimal (seq : Nat) : pivMinimal (shortPiv seq) = true := by
+  unfold shortPiv
+  split
+  · rfl
+  · rename_i hne
+    obtain ⟨x, rest, hx, hx0⟩ := natToMinBE_head hne
+    rw [hx]
+    cases x with
+    | zero => exact absurd rfl hx0
+    | succ x => cases rest <;> rfl
+
+/-- two Partial IVs in shortest form that pad to the same five bytes are the same bytes -/
+theorem padPiv_inj_of_minimal {p q : Bytes} (hp : pivMinimal p = true) (hq : pivMinimal q = true)
+    (hp1 : 1 ≤ p.length) (hp5 : p.length ≤ 5) (hq1 : 1 ≤ q.length) (hq5 : q.length ≤ 5)
+    (h : padPiv p = padPiv q) : p = q := by
+  have aux : ∀ (a b : Bytes), pivMinimal a = true → 1 ≤ b.length → b.length < a.length →
+      a.length ≤ 5 → padPiv a = padPiv b → False := by
+    intro a b ha hb1 hlt ha5 hab
+    unfold padPiv at hab
+    have hsplit : List.replicate (5 - b.length) 0 =
+        List.replicate (5 - a.length) 0 ++ List.replicate (a.length - b.length) 0 := by
+      rw [List.replicate_append_replicate]; congr 1; omega
+    rw [hsplit, List.append_assoc] at hab
+    have hab := List.append_cancel_left hab
+    -- `a` starts with a zero byte and is longer than one byte
+    have hpos : a.length - b.length = (a.length - b.length - 1) + 1 := by omega
+    rw [hpos, List.replicate_succ] at hab
+    cases a with
+    | nil => simp at hlt
+    | cons x xs =>
+      cases xs with
+      | nil => simp only [List.length_cons, List.length_nil] at hlt; omega
+      | cons y ys =>
+        simp only [List.cons_append, List.cons.injEq] at hab
+        rw [hab.1] at ha
+        simp [pivMinimal] at ha
+  rcases Nat.lt_trichotomy p.length q.length with hlt | heq | hgt
+  · exact (aux q p hq hp1 hlt hq5 h.symm).elim
+  · unfold padPiv at h
+    rw [heq] at h
+    exact List.append_cancel_left h
+  · exact (aux p q hp hq1 hgt hp5 h).elim
+
 /-- `partial_iv.lstrip(b"\0") or b"\0"` pads back to the 5-byte sequence number -/
 theorem padPiv_shortPiv {seq : Nat} (h : seq < maxSeqno) : padPiv (shortPiv seq) = natToBE 5 seq := by
   unfold shortPiv
